@@ -230,6 +230,9 @@ fn main() {
         p.header.code = coap_lite::MessageClass::Response(coap_lite::ResponseType::Content);
         p.payload = vec![1, 2, 3];
         for (n, v) in [(11u16, b"b".to_vec()), (3, b"h".to_vec()), (11, b"a".to_vec()), (258, vec![]), (11, b"c".to_vec()), (6, vec![0])] { p.add_option(CoapOption::from(n), v); }
+        // an option that was cleared leaves an entry with an empty value list behind: it must simply be skipped
+        p.add_option(CoapOption::ETag, vec![9]); p.clear_option(CoapOption::ETag);
+        p.add_option(CoapOption::IfMatch, vec![8]); p.clear_option(CoapOption::IfMatch);
         let want: Vec<(u16, Vec<u8>)> = vec![(3, b"h".to_vec()), (6, vec![0]), (11, b"b".to_vec()), (11, b"a".to_vec()), (11, b"c".to_vec()), (258, vec![])];
         {
             use coap_message_0_3::{MessageOption, MinimalWritableMessage, ReadableMessage};
